@@ -49,7 +49,7 @@ def floors(tier):
                          "py_cpp_sequences_compared": n["cpp_log"] * h["cpp_log"],
                          "real_ticks_replayed": n["real"] * h["real"] * 2,
                          "real_threading_checks": n["real"] * h["real"] * 2,
-                         "control_missing_typeerror_checks": n["py_log"], "real_units_with_filtering": max(1, n["real"] // 4),
+                         "control_missing_typeerror_checks": n["py_log"] * 6, "real_units_with_filtering": max(1, n["real"] // 4),
                          "ticks_with_unsorted_readings": 20}}
 
 
@@ -86,6 +86,11 @@ def gen_history(rng):
                     ts = out
                 elif where < 0.4 and rds:
                     ts = rds[-1][0]
+                elif where < 0.47:
+                    # almost, but not quite, at the held time / the previous reading (two sensors sampled
+                    # a few nanoseconds to a microsecond apart)
+                    base = rds[-1][0] if rds and rng.random() < 0.5 else held
+                    ts = base + rng.choice([1.0, -1.0]) * 10.0 ** rng.uniform(-8.7, -6.0)
                 else:
                     ts = held + rng.uniform(-1.5, 2.5) * span
                 pay += 1
@@ -176,18 +181,21 @@ def _py_log(R, rng, ctx):
                               "returned_tick0": [list(e) for e in outs[0]][:10]})
     # a model with control inputs cannot be ticked without them
     for csize in (1, 2, 5):
-        for with_readings in (False, True):
+        # (output time, reading timestamps): later output with/without readings, and ticks whose first (or
+        # every) propagation has zero length - output at the held time, readings stamped at the held time
+        for out_t, r_ts in ((1.0, None), (1.0, [0.5]), (0.0, None), (0.0, [0.0]), (1.0, [0.0, 0.5]), (0.0, [0.0, 0.0])):
             rec = rtmodel.RecFilter(0.1, control_size=csize)
             mf = ManagedFilter(rec, 0.0, (), None)
             R.stats.inc("control_missing_typeerror_checks")
-            kw = {"readings": [StampedReading(0.5, 0, payload=1)]} if with_readings else {}
+            kw = {"readings": [StampedReading(ts, 0, payload=j + 1) for j, ts in enumerate(r_ts)]} if r_ts is not None else {}
             try:
-                mf.tick(1.0, **kw)
-                R.add([K.V("py:tick:control-not-required", f"tick() without control accepted for a filter with {csize} control input(s)")])
+                mf.tick(out_t, **kw)
+                R.add([K.V("py:tick:control-not-required", f"tick({out_t}, readings at {r_ts}) without control accepted for a filter with {csize} control input(s) held at 0.0")])
             except TypeError:
                 pass
-            if rec.calls:
-                R.add([K.V("py:tick:control-not-required", "filter was called although control was missing")])
+            if rec.calls or mf.state != () or mf.current_time != 0.0:
+                R.add([K.V("py:tick:control-not-required", f"a refused control-less tick({out_t}, readings at {r_ts}) called the filter or changed the held estimate "
+                                                            f"(calls {rec.calls}, held log {mf.state!r}, held time {mf.current_time!r})")])
 
 
 def _cpp_log(R, rng, ctx, i):
